@@ -136,3 +136,34 @@ func init() {
 		},
 	})
 }
+
+func init() {
+	register(&Property{
+		ID: "C09",
+		Explanation: "Decides structural necessary conditions of longest-match-with-priority tables: DTX(accept-priority): in a DFA state the accepted rule is replaced only by a rule of strictly higher precedence, equal precedence with a different action is an error. FIELDCOV(checkpoint): backtracking checkpoints are shared only between transitions with the same target state and the same accepted action, and carry that action. " +
+			"CODEC(lexdfa): the writer's three cell classes (state, checkpoint k = -1-k, accept = -1-action shifted below the checkpoints) are produced under the right tests; Tables.Scan reads Backtrack[-1-cell] only for actionStart < cell < 0, computes actionStart-cell only for cell <= actionStart (also on the end-of-input transition), and prefers a recorded checkpoint over the invalid action. " +
+			"Not decided: subset construction, epsilon closure, symbol-class compression.",
+		Rules: []string{"DTX(accept-priority)", "FIELDCOV(checkpoint)", "CODEC(lexdfa)"},
+		Run: func(c *Ctx) {
+			ruleACCEPTPRIO(c)
+			ruleCHECKPOINTKEY(c)
+			ruleLEXCODEC(c)
+		},
+	})
+	register(&Property{
+		ID: "C10",
+		Explanation: "Decides structural necessary conditions of 'patterns denote their documented sets': INTERVAL(digit): hexval/octval, evaluated abstractly on a partition of the rune line, return exactly the digit value on digit ranges and -1 elsewhere. INTERVAL(accumulator): every digit accumulation loop in parseEscape has a constant trip count that fits 31 bits or a range check inside the loop (no int32 wrap-around). " +
+			"GUARD(fold): Unicode fold tables are appended only under opts.Fold. GUARD(invrange): a two-bound class range is inserted only after hi < lo was rejected. DTX(negation): \\p-negation = (letter is P) XOR (leading ^). LOOPSHAPE(fold-orbit): the SimpleFold orbit loop leaves only through its header. DTX(rune-fold): in bytes mode a rune above 0x7f is never folded (it must stay a single rune to become a byte literal). " +
+			"Not decided: the denotation of well-formed patterns in general (set algebra on ranges, quantifiers, parentheses).",
+		Rules: []string{"INTERVAL(digit)", "INTERVAL(accumulator)", "GUARD(fold)", "GUARD(invrange)", "DTX(negation)", "LOOPSHAPE(fold-orbit)", "DTX(rune-fold)"},
+		Run: func(c *Ctx) {
+			ruleDIGITS(c)
+			ruleACCUM(c)
+			ruleFOLDGUARD(c)
+			ruleINVRANGE(c)
+			rulePNEG(c)
+			ruleFOLDORBIT(c)
+			ruleRUNEFOLD(c)
+		},
+	})
+}
